@@ -6,6 +6,8 @@ import DispensoVerif.Model.Spsc
 import DispensoVerif.Model.Mpmc
 import DispensoVerif.Model.ChaseLev
 import DispensoVerif.Model.RWLock
+import DispensoVerif.Model.DistRWLock
+import DispensoVerif.Model.ThreadId
 
 /-! Handlers of the dvdriver line protocol. Core Lean only. -/
 namespace Driver
@@ -22,6 +24,8 @@ inductive Sess where
   | mpmc (K : Nat) (s : Conc.State (Mpmc.proto K))
   | chaselev (C : Nat) (s : Conc.State (ChaseLev.proto C))
   | rwlock (s : Conc.State RWLock.proto)
+  | threadid (s : Conc.State ThreadId.proto)
+  | distrw (N : Nat) (s : Conc.State (DistRWLock.proto N))
 
 structure St where
   sess : Sess := .none
@@ -82,6 +86,14 @@ def traceBegin (args : List String) : Sess × String :=
     | _ => (.failed, "bad-params")
   | "asyncreq" :: _ => (.asyncreq AsyncReq.init, "ok")
   | "rwlock" :: _ => (.rwlock RWLock.init, "ok")
+  | "threadid" :: rest =>
+    match ints rest with
+    | some [v] => (.threadid (ThreadId.init v), "ok")
+    | _ => (.failed, "bad-params")
+  | "distrw" :: rest =>
+    match nats rest with
+    | some [N] => (.distrw N (DistRWLock.init N), "ok")
+    | _ => (.failed, "bad-params")
   | "chaselev" :: rest =>
     match nats rest with
     | some [C] => (.chaselev C (ChaseLev.init C), "ok")
@@ -103,6 +115,14 @@ def traceLine (sess : Sess) (toks : List String) : Sess × String :=
   | .event s =>
     match Trace.acceptLine Event.binding s toks with
     | .ok s' => (.event s', "ok")
+    | .error e => (.failed, "MISMATCH " ++ e)
+  | .distrw N s =>
+    match Trace.acceptLine (DistRWLock.binding N) s toks with
+    | .ok s' => (.distrw N s', "ok")
+    | .error e => (.failed, "MISMATCH " ++ e)
+  | .threadid s =>
+    match Trace.acceptLine ThreadId.binding s toks with
+    | .ok s' => (.threadid s', "ok")
     | .error e => (.failed, "MISMATCH " ++ e)
   | .rwlock s =>
     match Trace.acceptLine RWLock.binding s toks with
